@@ -136,7 +136,7 @@ impl Property for C02 {
     }
     fn runs(&self, tier: Tier) -> usize {
         match tier {
-            Tier::Quick => 6000,
+            Tier::Quick => 40_000,
             Tier::Thorough => 150_000,
         }
     }
